@@ -501,7 +501,8 @@ def run(case, rec):
                     cvest.fit((e, n), data)
             finally:
                 vsp.Spline = orig
-            return (cvest.mindist_, cvest.damping_, tuple(np.round(np.asarray(cvest.force_), 9).tolist())), b
+            means = tuple(round(float(v), 10) for name, v in b.values if name.startswith("mean"))
+            return (cvest.mindist_, cvest.damping_, tuple(np.round(np.asarray(cvest.force_), 9).tolist()), means), b
 
         for choices, obs, b in S.explore(run_sched, case.get("bound", 0)):
             nsched += 1
@@ -509,6 +510,9 @@ def run(case, rec):
             outcomes.add(obs)
             if (obs[0], obs[1]) not in winners and bad is None:
                 bad = (choices, obs[:2])
+            want_means = tuple(round(ref[k], 10) for k in order)
+            if bad is None and (len(obs[3]) != len(want_means) or max(abs(a - w_) for a, w_ in zip(obs[3], want_means)) > 1e-9):
+                bad = (choices, ("mean cross-validation scores %s != independently computed %s" % (obs[3], want_means)))
         rec.count("schedules", nsched)
         rec.count("distinct_outcomes", len(outcomes))
         rec.count("splinecv_topological_orders", S.count_topological_orders(b.shape))
